@@ -1,8 +1,126 @@
 import QV.Wire
 import QV.Shared.LexWire
+import QV.C05.Model
+import QV.C05.Spec
 /-! Driver side of the C05 correspondence check. -/
 namespace QV.C05
-open QV
+open QV QV.Tok
+
+/-- the implementation's (or the model's) reading of the operand -/
+inductive Out where
+  | int (z : Int)
+  | real (bits : Nat)
+  | num (neg : Bool) (re im : Nat)
+  | nat (n : Nat)
+  | err
+  | other
+  deriving Repr, DecidableEq, BEq
+
+def parseHexBits (a : String) : Option Nat :=
+  match a.toList with
+  | 'x' :: hs =>
+    if hs.length = 16 then
+      hs.foldlM (fun acc c =>
+        let d := QV.C05.Spec.digitVal c
+        if d < 16 then some (acc * 16 + d) else none) 0
+    else none
+  | _ => none
+
+def decodeOut : Sexp → Option Out
+  | .list [.atom "int", .atom z] => z.toInt?.map Out.int
+  | .list [.atom "real", .atom b] => (parseHexBits b).map Out.real
+  | .list [.atom "num", .atom re, .atom im] => do some (.num false (← parseHexBits re) (← parseHexBits im))
+  | .list [.atom "neg", .list [.atom "num", .atom re, .atom im]] => do
+    some (.num true (← parseHexBits re) (← parseHexBits im))
+  | .list [.atom "nat", .atom n] => n.toNat?.map Out.nat
+  | .list [.atom "err"] => some .err
+  | .list [.atom "other"] => some .other
+  | _ => none
+
+/-- The model's prediction for a spelling placed in an operand position of the given kind:
+`none` = not predicted (the spelling lexes to more than one operand's worth of tokens, so what
+happens depends on the rest of the grammar, which this model does not cover). -/
+def predict (kind : String) (spelling : List Char) : Option Out :=
+  match QV.Lex.lex spelling with
+  | none => some .err
+  | some ts =>
+    match kind with
+    | "arith" | "cmp" | "logic" =>
+      let r := if kind == "logic" then parseBinaryLogicOperand ts else
+        if kind == "cmp" then parseComparisonOperand ts else parseArithmeticOperand ts
+      match r with
+      | .ok (.literalInteger z) [] => some (.int z)
+      | .ok (.literalReal b) [] => some (.real b)
+      | .ok _ _ => none
+      | .err => some .err
+    | "imm" =>
+      match parseImmediateValue ts with
+      | .ok z [] => some (.num false z.re z.im)
+      | .ok _ _ => none
+      | .err => some .err
+    | "expr" =>
+      match parseSignedNumber ts with
+      | .ok (neg, z) [] => some (.num neg z.re z.im)
+      | .ok _ _ => none
+      | .err => some .err
+    | "nat" =>
+      match parseU64 ts with
+      | .ok n [] => some (.nat n)
+      | .ok _ _ => none
+      | .err => some .err
+    | _ => none
+
+/-- **Bool specification** evaluated on the implementation's output: the operand equals the
+spelling's mathematical value (computed here from the digits by `QV.C05.Spec`, independently of the
+lexer model) with the kind (integer / real) the spelling has, or the parse failed.
+`std` = the bits Rust's `str::parse::<f64>` gives for the separator-stripped spelling, when present. -/
+def specCheck (kind : String) (sg : Spec.Signed) (std : Option Nat) (out : Out) : Bool :=
+  let realBits : Option Nat := match sg.lit.realValue with
+    | some (m, e) => QV.DecF64.roundDec m e
+    | none => none
+  let stdOk (b : Nat) : Bool := match std with
+    | some s => s == b
+    | none => true
+  match out with
+  | .err => true
+  | .other => sg.imag && kind != "expr" && kind != "imm"   -- `1i` is not one operand outside expressions
+  | .int z =>
+    (kind == "arith" || kind == "cmp" || kind == "logic") && !sg.imag &&
+    match sg.lit.intValue with
+    | some v => z == (if sg.neg then -(v : Int) else (v : Int)) && -(two63 : Int) ≤ z && z < (two63 : Int)
+    | none => false      -- a real literal became an integer
+  | .real b =>
+    (kind == "arith" || kind == "cmp") && !sg.imag &&
+    match realBits with
+    | some rb => b == applySign sg.neg rb && stdOk rb
+    | none => false      -- an integer literal became a real, or a non-finite value was accepted
+  | .nat n =>
+    kind == "nat" && !sg.imag && !sg.neg && !sg.plus &&
+    match sg.lit.intValue with
+    | some v => n == v && n < QV.Lex.two64
+    | none => false
+  | .num neg re im =>
+    (kind == "expr" || kind == "imm") && neg == sg.neg && !(kind == "imm" && sg.neg) && !sg.plus &&
+    let bits : Option Nat := match sg.lit.intValue with
+      | some v => if v < QV.Lex.two64 then some (QV.DecF64.ofNat v) else none   -- `u64 as f64`
+      | none => realBits
+    match bits with
+    | some b => (if sg.imag then re == 0 && im == b else re == b && im == 0) &&
+                (sg.lit.intValue.isSome || stdOk b)
+    | none => false
+
+private def litTags (sg : Spec.Signed) : List String :=
+  let base := match sg.lit with
+    | .int radix ds =>
+      let v := Spec.posValue radix ds
+      [s!"int-r{radix}", s!"digits{min ds.length 24}",
+       if v ≥ QV.Lex.two64 then "ge2^64" else if v ≥ two63 then "ge2^63" else if v ≥ 2^53 then "ge2^53" else "small"]
+    | .real m _ _ ed => ["real", if ed.isEmpty then "noexp" else "exp", if m.length > 19 then "longmant" else "shortmant"]
+  base ++ (if sg.neg then ["neg"] else if sg.plus then ["plus"] else ["nosign"]) ++ (if sg.imag then ["imag"] else [])
+
+private def outTag : Out → String
+  | .int _ => "out-int" | .real _ => "out-real" | .num .. => "out-num" | .nat _ => "out-nat"
+  | .err => "out-err" | .other => "out-other"
 
 def handle (inp out : Sexp) : CaseResult :=
   match inp with
@@ -10,6 +128,26 @@ def handle (inp out : Sexp) : CaseResult :=
     QV.LexWire.handleLex t out (fun _ m => match m with
       | some ts => ts.any fun tk => match tk with | .integer _ => true | .float _ => true | _ => false
       | none => true)
+  | .list [.atom "pos", .atom name, .atom kind, .str spelling, .atom stdA] =>
+    match decodeOut out with
+    | none => .bad s!"undecodable output {out}"
+    | some o =>
+      let sp := spelling.toList
+      let pred := predict kind sp
+      let sg := Spec.classifySigned sp
+      let std := parseHexBits stdA
+      let agree := match pred with
+        | some p => p == o
+        | none => true
+      let specOk := match sg with
+        | some s => specCheck kind s std o
+        | none => true
+      { agree := agree, specOk := specOk, nontrivial := sg.isSome && o != .other,
+        tags := [s!"pos-{name}", s!"kind-{kind}", outTag o,
+                 if pred.isNone then "unpredicted" else "predicted",
+                 if sp.contains '_' then "sep" else "nosep"] ++
+                (match sg with | some s => litTags s | none => ["not-a-literal"]),
+        detail := s!"spelling={repr spelling} kind={kind} model={repr pred} impl={repr o} spec-literal={repr sg}" }
   | _ => .bad s!"undecodable input {inp}"
 
 end QV.C05
